@@ -1,17 +1,21 @@
 (* C05 on the model regenerated from the source (G_syn). Nothing but the statement. *)
 From Coq Require Import NArith List.
-From PK Require Import Base.Outcome Gen.Types Impl Spec.Frame Syn.Ps2 Check.C05.
+From PK Require Import Base.Outcome Gen.Types Impl Spec.Frame Syn.Ps2 Check.Ps2M Check.C05.
 Import ListNotations.
 Local Open Scope N_scope.
 
 Lemma C05_state_independent : forall s s0 w, ps_add_word syn_ps2 s w = ps_add_word syn_ps2 s0 w.
 Proof. intros; reflexivity. Qed.
 
-Lemma C05_eq : cex_C05 syn_ps2 (Ps2Decoder_mk 0 0) = [].
+Lemma C05_eq : ps_at_init syn_ps2 [0] (fun s0 => cex_C05 syn_ps2 s0) = [].
 Proof. vm_compute. reflexivity. Qed.
+Lemma C05_init : exists s0, ps_init syn_ps2 = Ret s0. Proof. eexists; reflexivity. Qed.
 
 Theorem C05 : forall s w, w < 2048 -> ps_add_word syn_ps2 s w = Ret (check w).
-Proof. exact (C05_sound syn_ps2 (Ps2Decoder_mk 0 0) (fun s w => C05_state_independent s _ w) C05_eq). Qed.
+Proof.
+  destruct C05_init as (s0 & Hi). pose proof C05_eq as H. rewrite (ps_at_init_elim _ _ _ _ s0 Hi) in H.
+  exact (C05_sound syn_ps2 s0 (fun s w => C05_state_independent s _ w) H).
+Qed.
 
 Check C05 : forall s w, w < 2048 -> ps_add_word syn_ps2 s w = Ret (check w).
 Print Assumptions C05.
